@@ -107,10 +107,14 @@ def r1_1(repo: Repo) -> RuleResult:
                            % (ctor, kind), call.lineno)
                     continue
                 sh = expand_locals(shape, f, 3)
+                t = taint.get(f, set())
                 if not (isinstance(sh, ast.Tuple) and len(sh.elts) == 2):
+                    # a whole shape taken from fitted state, e.g. shape=self._train_matrix.shape
+                    if not (names_in(sh) & t) and any(is_self_attr(n) for n in ast.walk(sh)):
+                        rr.ok(f, construct, "shape=%s: taken from fitted state" % short(sh, 60), call.lineno)
+                        continue
                     raise AnalysisError("R1.1: shape argument `%s` in %s is not a recognisable 2-tuple" % (short(shape), f.key))
                 col = sh.elts[1]
-                t = taint.get(f, set())
                 bad = sorted(names_in(col) & t)
                 if bad:
                     rr.bad(f, construct,
